@@ -60,7 +60,8 @@ func (o *oracle3) Contains(p model3d.Coord3D) bool {
 	for i, v := range arr {
 		if !isInt(v) {
 			if ax >= 0 {
-				panic("oracle3 queried off the lattice lines")
+				offLatticeQuery.Store(true) // see latticeSolid.Contains
+				return false
 			}
 			ax = i
 		}
@@ -109,7 +110,8 @@ func (o *oracle2) Contains(p model2d.Coord) bool {
 	for i, v := range arr {
 		if !isInt(v) {
 			if ax >= 0 {
-				panic("oracle2 queried off the lattice lines")
+				offLatticeQuery.Store(true)
+				return false
 			}
 			ax = i
 		}
@@ -147,7 +149,7 @@ func emitSearch3(c *hlib.Ctx, s model3d.Solid, delta float64, desc string) {
 		default:
 			got, _ = model3d.MarchingCubesInterior(s, delta, iters)
 		}
-		return "balanced=1 fans=1 outward=1 " + l.snapHash(got)
+		return "balanced=1 fans=1 outward=1 " + l.snapHash(got) + offQuery()
 	}), "corr:c01 mcs/"+fnName)
 	if got != nil && got.NumTriangles() > 0 && got.NumTriangles() <= 40000 {
 		soup3(c, "mcs_"+fnName, func() *model3d.Mesh { return got }, tag)
@@ -173,104 +175,10 @@ func emitSearch2(c *hlib.Ctx, s model2d.Solid, delta float64, desc string) {
 		} else {
 			got = model2d.MarchingSquaresSearchFilter(s, func(*model2d.Rect) bool { return true }, delta, iters)
 		}
-		return "inout=1 outward=1 " + l.snapHash(got)
+		return "inout=1 outward=1 " + l.snapHash(got) + offQuery()
 	}), "corr:c01 mss/"+fnName)
 	if got != nil && got.NumSegments() > 0 {
 		soup2(c, "mss_"+fnName, func() *model2d.Mesh { return got })
-	}
-}
-
-// Conj members: MarchingCubesConj / MarchingSquaresConj = the searched mesh of the TRANSFORMED solid mapped back through
-// the inverse transform, vertex by vertex.  Every inverse transform is injective, so the mesh stays a closed manifold
-// (M3d.C01.mc_conj_edges_balanced_on_every_lattice / mc_conj_fans_one_cycle_on_every_lattice / ms_conj_closed_on_every_lattice);
-// whether it stays OUTWARD depends on the transform: documented as "applies the inverse to the resulting mesh", an
-// orientation-REVERSING transform (a mirror image) returns the surface inside out - arguably what the documentation says,
-// so only orientation-preserving transforms are generated (translations, axis scalings by powers of two with an even
-// number of negative factors = rotations by pi; all exact in floating point).  The real mesh goes through the
-// deciders with its exact float coordinates (its lattice is that of the transformed solid).
-func conjXforms3(c *hlib.Ctx) ([]model3d.Transform, string) {
-	var ts []model3d.Transform
-	desc := ""
-	for n := 1 + c.Rng.Intn(3); n > 0; n-- {
-		if c.Rng.Intn(2) == 0 {
-			o := model3d.XYZ(float64(c.Rng.Intn(9)-4)/8, float64(c.Rng.Intn(9)-4)/8, float64(c.Rng.Intn(9)-4)/8)
-			ts = append(ts, &model3d.Translate{Offset: o})
-			desc += fmt.Sprintf("T(%v,%v,%v)", o.X, o.Y, o.Z)
-		} else {
-			sc := [3]float64{pow2(c.Rng.Intn(5) - 2), pow2(c.Rng.Intn(5) - 2), pow2(c.Rng.Intn(5) - 2)}
-			if c.Rng.Intn(2) == 0 { // rotation by pi about one axis
-				a := c.Rng.Intn(3)
-				sc[(a+1)%3], sc[(a+2)%3] = -sc[(a+1)%3], -sc[(a+2)%3]
-			}
-			ts = append(ts, &model3d.VecScale{Scale: model3d.XYZ(sc[0], sc[1], sc[2])})
-			desc += fmt.Sprintf("V(%v,%v,%v)", sc[0], sc[1], sc[2])
-		}
-	}
-	return ts, desc
-}
-
-func conjXforms2(c *hlib.Ctx) ([]model2d.Transform, string) {
-	var ts []model2d.Transform
-	desc := ""
-	for n := 1 + c.Rng.Intn(3); n > 0; n-- {
-		if c.Rng.Intn(2) == 0 {
-			o := model2d.XY(float64(c.Rng.Intn(9)-4)/8, float64(c.Rng.Intn(9)-4)/8)
-			ts = append(ts, &model2d.Translate{Offset: o})
-			desc += fmt.Sprintf("T(%v,%v)", o.X, o.Y)
-		} else {
-			sx, sy := pow2(c.Rng.Intn(5)-2), pow2(c.Rng.Intn(5)-2)
-			if c.Rng.Intn(2) == 0 {
-				sx, sy = -sx, -sy
-			}
-			ts = append(ts, &model2d.VecScale{Scale: model2d.XY(sx, sy)})
-			desc += fmt.Sprintf("V(%v,%v)", sx, sy)
-		}
-	}
-	return ts, desc
-}
-
-func runConj(c *hlib.Ctx) {
-	for i := 0; i < c.N/10+5; i++ {
-		delta := 1.0 / 32
-		s, family := candidate3(c, delta, 2, 8)
-		ts, desc := conjXforms3(c)
-		iters := searchIters[c.Rng.Intn(len(searchIters))]
-		d := delta * pow2(c.Rng.Intn(3)-1)
-		tag := fmt.Sprintf("fn=MarchingCubesConj delta=%v iters=%d xforms=%s solid=%s %s", d, iters, desc, family, s.desc())
-		c.Stat("c01.conj3.cases", 1)
-		var got *model3d.Mesh
-		r := guarded(func() string {
-			got = model3d.MarchingCubesConj(s, d, iters, ts...)
-			return "ok"
-		})
-		if r != "ok" || got == nil {
-			c.EmitSite("c01 same conj-ran "+tag, r, "corr:c01 mcj/ran")
-			continue
-		}
-		if got.NumTriangles() > 0 && got.NumTriangles() <= 60000 {
-			soup3(c, "mcj", func() *model3d.Mesh { return got }, tag)
-		}
-	}
-	for i := 0; i < c.N/6+5; i++ {
-		delta := 1.0 / 64
-		s, family := candidate2(c, delta, 2)
-		ts, desc := conjXforms2(c)
-		iters := searchIters[c.Rng.Intn(len(searchIters))]
-		d := delta * pow2(c.Rng.Intn(3)-1)
-		tag := fmt.Sprintf("fn=MarchingSquaresConj delta=%v iters=%d xforms=%s solid=%s %s", d, iters, desc, family, s.desc())
-		c.Stat("c01.conj2.cases", 1)
-		var got *model2d.Mesh
-		r := guarded(func() string {
-			got = model2d.MarchingSquaresConj(s, d, iters, ts...)
-			return "ok"
-		})
-		if r != "ok" || got == nil {
-			c.EmitSite("c01 same conj-ran "+tag, r, "corr:c01 msj/ran")
-			continue
-		}
-		if got.NumSegments() > 0 {
-			soup2(c, "msj", func() *model2d.Mesh { return got })
-		}
 	}
 }
 
